@@ -107,6 +107,23 @@ func boundStr(cfg explore.Config) string {
 	return "P<=" + f(cfg.P) + ",T<=" + f(cfg.T) + ",E<=" + f(cfg.E)
 }
 
+// guard wraps a scenario's setup: an execution that ran into the scheduler's
+// step limit is reported as non-termination of the library (the harness bodies
+// are finite programs) instead of being handed to the scenario's oracle.
+func guard(c *fw.Ctx, name string, s explore.Setup) explore.Setup {
+	return func(w *vs.World) func(bool) {
+		after := s(w)
+		return func(complete bool) {
+			if w.StepLimit {
+				prop := strings.TrimSuffix(c.Property, "R")
+				violate(c, w, name, prop+"/no-termination/step-limit", fmt.Sprintf("the execution did not end within %d scheduling steps: library code keeps looping through synchronisation or transport operations; still running: %v", w.MaxSteps, stuckTasks(w)))
+				return
+			}
+			after(complete)
+		}
+	}
+}
+
 func scenarioUnits(scs []scenario) []fw.Unit {
 	var us []fw.Unit
 	// grouped scenarios: one unit explores all scenarios of a group
@@ -130,7 +147,7 @@ func scenarioUnits(scs []scenario) []fw.Unit {
 			var tot explore.Stats
 			exh := true
 			for _, sc := range list {
-				st := explore.Explore(c, sc.Cfg, sc.Setup(c, sc.Name))
+				st := explore.Explore(c, sc.Cfg, guard(c, sc.Name, sc.Setup(c, sc.Name)))
 				tot.Execs += st.Execs
 				tot.Complete += st.Complete
 				tot.Pruned += st.Pruned
@@ -165,7 +182,7 @@ func scenarioUnits(scs []scenario) []fw.Unit {
 			us = append(us, fw.Unit{ID: id, Run: func(c *fw.Ctx) {
 				cfg := sc.Cfg
 				cfg.Shard, cfg.NShards = sh, n
-				st := explore.Explore(c, cfg, sc.Setup(c, sc.Name))
+				st := explore.Explore(c, cfg, guard(c, sc.Name, sc.Setup(c, sc.Name)))
 				c.Bound(sc.Name, map[string]interface{}{"bounds": boundStr(cfg), "executions": st.Execs, "complete": st.Complete, "pruned": st.Pruned, "states": st.States, "max_points": st.MaxPoints, "deadlocks": st.Deadlocks, "exhaustive_within_bounds": st.Exhaustive})
 				if c.WantSample() {
 					c.Sample(map[string]interface{}{"scenario": sc.Name, "bounds": boundStr(cfg), "executions": st.Execs, "max_scheduling_points": st.MaxPoints})
@@ -216,7 +233,7 @@ func replayFn(scsOf func(tier string) []scenario) func(c *fw.Ctx, data json.RawM
 				if sc.Name != rd.Scenario {
 					continue
 				}
-				w := explore.RunOne(sc.Cfg, rd.Choices, rd.Sigs, true, sc.Setup(c, sc.Name))
+				w := explore.RunOne(sc.Cfg, rd.Choices, rd.Sigs, true, guard(c, sc.Name, sc.Setup(c, sc.Name)))
 				if w.Diverged != "" {
 					c.EngineError("replay diverged: " + w.Diverged)
 				}
